@@ -1,6 +1,7 @@
 """C18 — a trie's root depends only on its contents, and proofs prove exactly them
 (spec/Trie.tla, spec/TrieTrace.tla, harness/cmd/triedrv)."""
 import json, re
+from concurrent.futures import ThreadPoolExecutor
 from pathlib import Path
 import vlib
 from vlib import Broken
@@ -120,14 +121,17 @@ def run(ctx):
              % (nbeh, len(FLAVORS), calls, checks, len(rj.get("violations") or [])))
 
     # 3. code -> spec: long seeded random call sequences, validated by TrieTrace.tla
-    batches = [(18, 150)] if quick else [(36, 300)] * 4
+    batches = [(12, 150)] if quick else [(36, 300)] * 4
     validated = events = 0
+    jobs = []
     for bi, (ntr, depth) in enumerate(batches):
         tr = ctx.work / ("trietrace-%d.ndjson" % bi)
         p = vlib.run([drv, "random", "-seed", ctx.seed * 100 + bi, "-n", ntr, "-depth", depth, "-out", tr], timeout=3000, check=True)
-        info = json.loads(p.stdout.strip().splitlines()[-1])
-        t = vlib.tlc(ctx, "TrieTrace", "TrieTrace.cfg", workers=1, timeout=3000, tag="TrieTrace-%d" % bi,
-                     files={"trietrace.ndjson": tr.read_text()})
+        jobs.append((bi, tr, json.loads(p.stdout.strip().splitlines()[-1])))
+    with ThreadPoolExecutor(max_workers=4) as ex:      # one single-worker TLC per batch, side by side
+        results = list(ex.map(lambda j: vlib.tlc(ctx, "TrieTrace", "TrieTrace.cfg", workers=1, timeout=3000, tag="TrieTrace-%d" % j[0],
+                                                 files={"trietrace.ndjson": j[1].read_text()}), jobs))
+    for (bi, tr, info), t in zip(jobs, results):
         rows = vlib.read_ndjson(tr)
         if t.ok:
             if info["failed_checks"]:
